@@ -395,12 +395,99 @@ theorem answers_complete (S : Sys) (pre : List Op) (c : ℚ) (hc : 0 < c)
 example : answers exSys [.query (3 / 2), .setPos 1 ⟨2, 1/2, 1/2⟩, .query (3 / 2)] = [[[1], [0]], [[], []]] := by
   decide +kernel
 
+/-! ### the source computes with the types, scalars and tests of the model (translator tie) -/
+
+/-- **src_reals_double**: every real-valued variable of `nlist` and `dmag2_c` — the cutoff parameter, `cutoff2`, the
+    bin size, the superbox, the bin edges, the position / box buffers, the distance buffers — is declared `double`
+    (float64) in the source of this run; so is every other variable those two functions declare with a real C type.
+    The theorems of this file are about exact reals, the idealisation of `double`; a narrower declared type (`float
+    cutoff`: the effective cutoff becomes the single-precision rounding of the requested one) is outside it. -/
+theorem src_reals_double :
+    Gen.ty_nlist_cutoff = .double ∧
+    Gen.ty_nlist_cutoff2 = .double ∧
+    Gen.ty_nlist_binsize = .double ∧
+    Gen.ty_nlist_corner = .double ∧
+    Gen.ty_nlist_supermin = .double ∧
+    Gen.ty_nlist_supermax = .double ∧
+    Gen.ty_nlist_xbins = .double ∧
+    Gen.ty_nlist_ybins = .double ∧
+    Gen.ty_nlist_zbins = .double ∧
+    Gen.ty_nlist_posv = .double ∧
+    Gen.ty_nlist_vects = .double ∧
+    Gen.ty_nlist_origin = .double ∧
+    Gen.ty_nlist_newposv = .double ∧
+    Gen.ty_nlist_ghostpos = .double ∧
+    Gen.ty_nlist_upos = .double ∧
+    Gen.ty_nlist_vpos = .double ∧
+    Gen.ty_nlist_dmag2 = .double ∧
+    Gen.ty_nlist_pos = .double ∧
+    Gen.ty_dmag_pos_0 = .double ∧
+    Gen.ty_dmag_pos_1 = .double ∧
+    Gen.ty_dmag_bvects = .double ∧
+    Gen.ty_dmag_mag2_test = .double ∧
+    Gen.ty_dmag_d = .double ∧
+    Gen.ty_dmag_mag2_dv = .double ∧
+    Gen.ty_dmag_mag2_d = .double ∧
+    (∀ t ∈ Gen.otherReals, t = Gen.CReal.double) := by decide
+
+/-- **src_scalars_as_modelled**: the scalar expressions and tests standing in the source are the modelled ones:
+    `cutoff2 = cutoff*cutoff` is what `nlistL` compares with, `binsize = cutoff` is the bin width of `mkGrid`,
+    `if dmag2[w] < cutoff2: … if uindex != vindex:` is `accept` (strict), and the candidate loop of `dmag2_c` replaces
+    its minimum on strict `<` (as `Atomman.dmag2`). -/
+theorem src_scalars_as_modelled (S : Sys) (cutoff t m : ℚ) (uv : Nat × Nat) :
+    nlistL S cutoff = runL S (Gen.cutoff2Of cutoff) (cands S cutoff) ∧
+    (mkGrid S cutoff).c = Gen.binsizeOf cutoff ∧
+    accept S (Gen.cutoff2Of cutoff) uv
+      = (Gen.acceptTest (dist2 S uv.1 uv.2) (Gen.cutoff2Of cutoff) && Gen.distinctTest uv.1 uv.2) ∧
+    Gen.minTest t m = decide (t < m) := by
+  have h2 : Gen.cutoff2Of cutoff = cutoff * cutoff := by simp only [Gen.cutoff2Of] <;> ring
+  refine ⟨?_, ?_, ?_, ?_⟩
+  · rw [h2]; rfl
+  · simp only [mkGrid, Gen.binsizeOf] <;> ring
+  · rw [Bool.eq_iff_iff]
+    simp only [accept, Gen.acceptTest, Gen.distinctTest, Bool.and_eq_true, decide_eq_true_eq, bne_iff_ne, ne_eq,
+      gt_iff_lt, ge_iff_le]
+  · rw [Bool.eq_iff_iff]
+    simp only [Gen.minTest, decide_eq_true_eq, gt_iff_lt]
+
 /-! ### text round trip -/
+
+/-- **dump_as_modelled**: the text `NeighborList.dump` writes according to the source of this run (header writes,
+    `'%i' % i`, `' %i' % j` per neighbor, `'\n'`; `renderGen`, regenerated from NeighborList.py) is `render`. -/
+theorem dump_as_modelled (rows : Rows) : renderGen rows = render rows := by
+  have hl : ∀ (i : Nat) (row : List Nat),
+      Gen.dumpIdx i ++ row.flatMap Gen.dumpNbr ++ Gen.dumpEol = renderLine i row ++ ['\n'] := by
+    intro i row; rfl
+  have hh : Gen.dumpHeader = header.flatMap (fun l => l ++ ['\n']) := by decide
+  unfold renderGen render renderLines
+  rw [List.flatMap_append, hh]
+  congr 1
+  rw [List.flatMap_def]
+  congr 1
+  apply List.ext_getElem?
+  intro k
+  simp only [List.getElem?_map, List.getElem?_mapIdx]
+  cases rows[k]? <;> simp [hl]
 
 /-- **nlist_text_roundtrip**: reading back what `dump` wrote gives the same lists
     (`load (dump rows) = rows`, hence the same coordination numbers). -/
 theorem nlist_text_roundtrip (rows : Rows) : parse (render rows) = some rows := parse_render rows
 
 example : parse (render [[1, 12], [0], [], [0]]) = some [[1, 12], [0], [], [0]] := parse_render _
+
+/-- **src_dump_roundtrip**: what the `dump` of the source of this run writes is read back by `load` as the same lists,
+    for every number of atoms and every index size (the separating blank is part of the neighbor format). -/
+theorem src_dump_roundtrip (rows : Rows) : parse (renderGen rows) = some rows := by
+  rw [dump_as_modelled]; exact parse_render rows
+
+/-- six-digit indices: the source's format keeps them apart; a right-aligned fixed-width format without a separating
+    blank (`'%6i'`, here through the generated `padLeft`) fuses them into one number on reading. -/
+example :
+    parse (renderGen ((List.replicate 100002 []).set 5 [99999, 100000, 100001]))
+      = some ((List.replicate 100002 []).set 5 [99999, 100000, 100001]) ∧
+    parseLine (Gen.padLeft 6 (Nat.toDigits 10 5) ++ Gen.padLeft 6 (Nat.toDigits 10 99999)
+        ++ Gen.padLeft 6 (Nat.toDigits 10 100000) ++ Gen.padLeft 6 (Nat.toDigits 10 100001))
+      = .entry 5 [99999100000100001] := by
+  refine ⟨src_dump_roundtrip _, by decide +kernel⟩
 
 end Atomman.C03
